@@ -17,6 +17,7 @@ import (
 	"io/ioutil"
 	"math/big"
 	"os"
+	"reflect"
 	"runtime"
 	"sort"
 	"strings"
@@ -615,6 +616,17 @@ func observe(cfg runCfg, x int, s *state.StateDB, want *obsT) *mismatch {
 		return mm("refund", "instance %d: GetRefund=%d, model %d", x, got, w)
 	}
 	return nil
+}
+
+// sharesTokens reports whether an account of the copy holds the very map object its original holds.
+func sharesTokens(cfg runCfg, a, b *state.StateDB) bool {
+	for ai := range cfg.tab.addrs {
+		x, y := a.GetAccount(cfg.tab.addr(ai+1)), b.GetAccount(cfg.tab.addr(ai+1))
+		if x != nil && y != nil && x.Tokens != nil && y.Tokens != nil && reflect.ValueOf(x.Tokens).Pointer() == reflect.ValueOf(y.Tokens).Pointer() {
+			return true
+		}
+	}
+	return false
 }
 
 // accountDiff names the first field in which the stored form of an account differs.
